@@ -453,6 +453,142 @@ Theorem C02x_models_agree_on_emptiness_and_equality :
 Proof. split; [exact XuEmbed.models_agree_empty_lifted|split; [exact XuEmbed.emb_py_eqv|exact XuEmbed.emb_wf]]. Qed.
 Print Assumptions C02x_models_agree_on_emptiness_and_equality.
 
+
+(* ---- the extended universe, second part: no leaf guard, the real item hash (Diff/XuEmptyNorm.v, Diff/XuHashSound.v) ----
+   WITHOUT the leaf guard [dt_kind]: an empty diff means that the two values are == once every naive datetime LEAF is
+   read as UTC ([normL] applies datetime_normalize to the datetime leaves; dict keys and set members as they are) -
+   which is what DeepDiff decides (default_timezone = utc); the guard is exactly what makes this Python's == *)
+From DD Require Diff.XuEmptyNorm Diff.XuObs Diff.XuHashSound.
+
+Theorem C02x_empty_sound_unguarded :
+  forall hatom udiff ops excl c ok (t1 t2 : XuValue.value),
+    (forall a b, ok a = true -> ok b = true -> hatom a = hatom b -> XuValue.py_eq a b = true) -> XuEmpty.valid_ops ops ->
+    XuValue.wf t1 = true -> XuValue.wf t2 = true ->
+    XuEmpty.inputs_ok (XuModel.keep_key c) ok XuEmpty.any_atom t1 = true ->
+    XuEmpty.inputs_ok (XuModel.keep_key c) ok XuEmpty.any_atom t2 = true ->
+    fst (XuModel.run_diff hatom udiff ops (fun _ => false) excl c t1 t2) = [] ->
+    XuValue.py_eqv (XuEmptyNorm.normL t1) (XuEmptyNorm.normL t2) = true.
+Proof. intros. eapply XuEmptyNorm.run_empty_sound_norm; eassumption. Qed.
+Print Assumptions C02x_empty_sound_unguarded.
+
+(* on the finding's witness the conclusion holds and == does not; on the satisfiability pair both; not vacuous *)
+Theorem C02x_unguarded_conclusion_witnesses :
+  XuValue.py_eqv (XuEmptyNorm.normL (XuValue.VList [XuValue.VAtom XuEmpty.na_naive])) (XuEmptyNorm.normL (XuValue.VList [XuValue.VAtom XuEmpty.na_aware])) = true /\
+  XuValue.py_eqv (XuValue.VList [XuValue.VAtom XuEmpty.na_naive]) (XuValue.VList [XuValue.VAtom XuEmpty.na_aware]) = false /\
+  XuValue.py_eqv (XuEmptyNorm.normL XuEmpty.nv_t1) (XuEmptyNorm.normL XuEmpty.nv_t2) = true /\
+  XuValue.py_eqv (XuEmptyNorm.normL (XuValue.VList [XuValue.VAtom (XuValue.ADt 5 None)])) (XuEmptyNorm.normL (XuValue.VList [XuValue.VAtom (XuValue.ADt 6 None)])) = false.
+Proof. exact XuEmptyNorm.normL_witness. Qed.
+Print Assumptions C02x_unguarded_conclusion_witnesses.
+
+(* SET MEMBERS with the model of the REAL item hash (Diff/XuHash.v): the hash hypothesis is discharged on members inside
+   the boolean guard [ok_x k] (Diff/XuObs.v: no str spelling a type tag; datetime members all aware (k = true) or all
+   naive; time members naive) - for every injective hasher, under three facts about Python's str() of these objects
+   (oracles; observed on every run by harness/xucommon.py): injective within a kind, str(seconds) injective, and the
+   texts of a datetime, of a time's seconds and of a date never coincide *)
+Theorem C02x_real_hash_separates :
+  forall H xstr secs,
+    (forall s t, H s = H t -> s = t) ->
+    (forall a b, XuHashSound.same_kind a b = true -> xstr a = xstr b -> a = b) ->
+    (forall x y, secs x = secs y -> x = y) ->
+    (forall u o us, xstr (XuValue.ADt u o) <> secs us) ->
+    (forall u o d, xstr (XuValue.ADt u o) <> xstr (XuValue.ADate d)) ->
+    (forall us d, secs us <> xstr (XuValue.ADate d)) ->
+    forall k a b, XuObs.ok_x k a = true -> XuObs.ok_x k b = true ->
+      XuHash.xhash_atom H xstr secs a = XuHash.xhash_atom H xstr secs b -> XuValue.py_eq a b = true.
+Proof. intros. eapply XuHashSound.xhash_separates; eassumption. Qed.
+Print Assumptions C02x_real_hash_separates.
+
+(* hence soundness with only BOOLEAN guards on the inputs (keys looked at, set members ok_x k, datetime leaves dt_kind k) *)
+Theorem C02x_empty_sound_real_hash :
+  forall H xstr secs,
+    (forall s t, H s = H t -> s = t) ->
+    (forall a b, XuHashSound.same_kind a b = true -> xstr a = xstr b -> a = b) ->
+    (forall x y, secs x = secs y -> x = y) ->
+    (forall u o us, xstr (XuValue.ADt u o) <> secs us) ->
+    (forall u o d, xstr (XuValue.ADt u o) <> xstr (XuValue.ADate d)) ->
+    (forall us d, secs us <> xstr (XuValue.ADate d)) ->
+    forall udiff ops excl c k (t1 t2 : XuValue.value),
+      XuEmpty.valid_ops ops -> XuValue.wf t1 = true -> XuValue.wf t2 = true ->
+      XuEmpty.inputs_ok (XuModel.keep_key c) (XuObs.ok_x k) (XuEmpty.dt_kind k) t1 = true ->
+      XuEmpty.inputs_ok (XuModel.keep_key c) (XuObs.ok_x k) (XuEmpty.dt_kind k) t2 = true ->
+      fst (XuModel.run_diff (XuHash.xhash_atom H xstr secs) udiff ops (fun _ => false) excl c t1 t2) = [] ->
+      XuValue.py_eqv t1 t2 = true.
+Proof. intros. eapply XuHashSound.run_empty_sound_xhash; eassumption. Qed.
+Print Assumptions C02x_empty_sound_real_hash.
+
+Theorem C02x_oracle_hypotheses_satisfiable :
+  let xstr := fun a => 1%N :: XuEmpty.inj_hash a in
+  let secs := fun us => [0%N; XuEmpty.zenc us] in
+  (forall a b, XuHashSound.same_kind a b = true -> xstr a = xstr b -> a = b) /\
+  (forall x y, secs x = secs y -> x = y) /\
+  (forall u o us, xstr (XuValue.ADt u o) <> secs us) /\
+  (forall u o d, xstr (XuValue.ADt u o) <> xstr (XuValue.ADate d)) /\
+  (forall us d, secs us <> xstr (XuValue.ADate d)).
+Proof. exact XuHashSound.oracle_hypotheses_satisfiable. Qed.
+Print Assumptions C02x_oracle_hypotheses_satisfiable.
+
+
+(* ---- C02_empty_sound WITHOUT the key guard (Diff/DiffStrip.v) ----
+   dict keys hidden by ignore_private_variables are not part of what is compared: [strip c v] removes them at every depth
+   (the identity when every key is looked at, e.g. ignore_private_variables=False); the diff of two values is empty iff
+   the diff of the stripped values is, for ALL values, both list modes and every oracle; so an empty diff means that the
+   STRIPPED values are == - for all well-formed inputs, only the set-member guard is left *)
+From DD Require Diff.DiffStrip.
+
+Theorem C02_diff_empty_iff_stripped_diff_empty :
+  forall hatom udiff ops excl c t1 t2,
+    fst (run_diff hatom udiff ops (fun _ => false) excl c t1 t2) = [] <->
+    fst (run_diff hatom udiff ops (fun _ => false) excl c (DiffStrip.strip c t1) (DiffStrip.strip c t2)) = [].
+Proof. exact DiffStrip.run_nil_strip. Qed.
+Print Assumptions C02_diff_empty_iff_stripped_diff_empty.
+
+Theorem C02_empty_sound_all_keys :
+  forall hatom udiff ops excl c ok t1 t2,
+    (forall a b, ok a = true -> ok b = true -> hatom a = hatom b -> py_eq a b = true) -> valid_ops ops ->
+    wf t1 = true -> wf t2 = true ->
+    inputs_ok any_atom ok t1 = true -> inputs_ok any_atom ok t2 = true ->
+    fst (run_diff hatom udiff ops (fun _ => false) excl c t1 t2) = [] ->
+    py_eqv (DiffStrip.strip c t1) (DiffStrip.strip c t2) = true.
+Proof. intros. eapply DiffStrip.run_empty_sound_all_keys; eassumption. Qed.
+Print Assumptions C02_empty_sound_all_keys.
+
+Theorem C02_strip_is_identity_on_looked_at_keys :
+  forall c v, inputs_ok (keep_key c) any_atom v = true -> DiffStrip.strip c v = v.
+Proof. exact DiffStrip.strip_id. Qed.
+Print Assumptions C02_strip_is_identity_on_looked_at_keys.
+
+(* the threshold guard of the copy clause is necessary: threshold_to_diff_deeper = 3/2 (outside the documented range,
+   accepted by DeepDiff unchecked; replayed on the implementation by c02.py) reports {'a':1,'b':2} as changed against itself *)
+Theorem C02_copy_empty_refuted_threshold :
+  wf DiffStrip.thr_d = true /\
+  length (fst (run_diff inj_hash (fun _ _ => []) one_block (fun _ => false) (fun _ => false) (mkCfg false 3 2 true) DiffStrip.thr_d DiffStrip.thr_d)) = 1 /\
+  fst (run_diff inj_hash (fun _ _ => []) one_block (fun _ => false) (fun _ => false) (mkCfg false 1 1 true) DiffStrip.thr_d DiffStrip.thr_d) = [].
+Proof. exact DiffStrip.copy_empty_refuted_threshold. Qed.
+Print Assumptions C02_copy_empty_refuted_threshold.
+
+(* ---- "in every view, verbosity >= 1" over the extended universe (Diff/XuTextEmpty.v), every printer oracle ---- *)
+From DD Require Diff.XuTextView Diff.XuTextEmpty.
+
+Theorem C02x_text_empty_is_tree_empty :
+  forall xrepr xstr v hatom udiff ops excl c (t1 t2 : XuValue.value),
+    1 <= v -> XuEmpty.tiling ops ->
+    XuTextView.text_view xrepr xstr v (fst (XuModel.run_diff hatom udiff ops (fun _ => false) excl c t1 t2)) = [] ->
+    fst (XuModel.run_diff hatom udiff ops (fun _ => false) excl c t1 t2) = [].
+Proof. exact XuTextEmpty.text_empty_tree_empty. Qed.
+Print Assumptions C02x_text_empty_is_tree_empty.
+
+Theorem C02x_empty_sound_text_unguarded :
+  forall xrepr xstr v hatom udiff ops excl c ok (t1 t2 : XuValue.value),
+    1 <= v ->
+    (forall a b, ok a = true -> ok b = true -> hatom a = hatom b -> XuValue.py_eq a b = true) -> XuEmpty.valid_ops ops ->
+    XuValue.wf t1 = true -> XuValue.wf t2 = true ->
+    XuEmpty.inputs_ok (XuModel.keep_key c) ok XuEmpty.any_atom t1 = true ->
+    XuEmpty.inputs_ok (XuModel.keep_key c) ok XuEmpty.any_atom t2 = true ->
+    XuTextView.text_view xrepr xstr v (fst (XuModel.run_diff hatom udiff ops (fun _ => false) excl c t1 t2)) = [] ->
+    XuValue.py_eqv (XuEmptyNorm.normL t1) (XuEmptyNorm.normL t2) = true.
+Proof. exact XuTextEmpty.text_empty_sound_norm. Qed.
+Print Assumptions C02x_empty_sound_text_unguarded.
+
 (* ------------------------------------------------------------------ *)
 (** EXTENSION beyond the property's stated domain: values holding INSTANCES OF CLASSES
     (objects with attributes, Obj/ObjValue.v [ovalue]).  The ordered diff on such values is the
